@@ -112,6 +112,23 @@ theorem source_spec (f : Family) (et oa : Option Int) :
   cases h1 : mem? f.aaEffects et <;> cases h2 : mem? f.partialQ et <;> cases h3 : mem? f.aaAttrs oa <;>
     cases h4 : mem? f.partialV et <;> simp
 
+/-- an effect that is re-targeted after creation (type or attribute assigned later) follows its NEW family: once the
+attribute is ATTACK/ARMOR of a by-variable effect and class and variable are set, the stored variable packs the pair;
+re-targeting away from the family stores the plain variable again -/
+theorem retarget_variable (k : Nat) (f : Family) (e : Eff) (et oa : Option Int) (c v : Int)
+    (h : source f et oa = .variable) :
+    storedVariable k (setVar (setClass (retarget f e et oa) c) v) = .ok (merge k c v) := by
+  simp [retarget, setClass, setVar, storedVariable, h]
+
+theorem retarget_quantity (k : Nat) (f : Family) (e : Eff) (et oa : Option Int) (c a : Int)
+    (h : source f et oa = .quantity) :
+    storedQuantity k (setAmount (setClass (retarget f e et oa) c) a) = .ok (some (merge k c a)) := by
+  simp [retarget, setClass, setAmount, storedQuantity, h]
+
+theorem retarget_plain (k : Nat) (f : Family) (e : Eff) (et oa : Option Int) (h : source f et oa = .none) :
+    storedVariable k (retarget f e et oa) = .ok e.var ∧ storedQuantity k (retarget f e et oa) = .ok e.quantity := by
+  simp [retarget, storedVariable, storedQuantity, h]
+
 /-! ### non-vacuity: the hypotheses are met by ordinary values, and the numbers are the documented ones -/
 example : merge (width true) 3 5 = 196613 ∧ merge (width false) 3 5 = 773 := by decide
 example : split 16 196613 = (3, 5) ∧ split 8 773 = (3, 5) ∧ split 8 (-300) = (-2, 212) := by decide
